@@ -115,6 +115,30 @@ def check_errflow(func, producers, qual, module, rep, rule, allow_discard=()):
         rep.instance(rule, desc)
         kind, names = bound_names(c, idx)
         ok = kind == 'sink' or (kind == 'names' and reaches_sink(func, names))
+        # a plain assignment inside a loop keeps only the error of the LAST iteration when the
+        # name is the accumulator itself (it is `+=`-ed elsewhere / returned after the loop)
+        if ok and kind == 'names':
+            from .core import in_loop, parent
+            st = c
+            while not isinstance(st, ast.stmt):
+                st = parent(st)
+            if isinstance(st, ast.Assign) and in_loop(st, func) and len(st.targets) == 1 and \
+                    isinstance(st.targets[0], ast.Name):
+                nm0 = st.targets[0].id
+                lp = st
+                while not isinstance(lp, (ast.For, ast.While)):
+                    lp = parent(lp)
+                used_in_loop = any(isinstance(x, ast.Name) and x.id == nm0 and
+                                   isinstance(x.ctx, ast.Load) for x in ast.walk(lp))
+                returned = any(isinstance(r, ast.Return) and r.value is not None and any(
+                    isinstance(x, ast.Name) and x.id == nm0 for x in ast.walk(r.value))
+                    for r in ast.walk(func))
+                if returned and not used_in_loop:
+                    rep.violation(rule, module, qual, 'last-wins:' + nm,
+                                  '`%s` re-binds `%s` in every iteration of the loop and nothing '
+                                  'in the loop reads it: only the error of the last truncation '
+                                  'reaches the returned value' % (unparse(st)[:70], nm0),
+                                  st.lineno)
         if not ok and not any(a in unparse(c) for a in allow_discard):
             rep.violation(rule, module, qual, 'dropped-error:' + nm,
                           'the truncation error produced by `%s` is %s: it never reaches the '
